@@ -4,6 +4,7 @@
   Model: ScionTime/Model/Ntske.lean; helper lemmas: ScionTime/Proofs/Ntske.lean.
 -/
 import ScionTime.Proofs.Ntske
+import ScionTime.Gen.Ntske
 namespace ScionTime.C14Ntske
 open ScionTime.Ntske
 
@@ -35,6 +36,64 @@ theorem C14Ntske_F7_old_depends_on_segmentation :
 theorem C14Ntske_F7_old_outcomes :
     readDataOld [[0, 5, 0, 4, 1, 2, 3, 4, 128, 0, 0, 0]] {} = ({ cookies := [[1, 2, 3, 4]] }, none) ∧
     readDataOld [[0, 5, 0, 4, 1], [2, 3, 4, 128, 0, 0, 0]] {} = ({ cookies := [[1, 0, 0, 0]] }, some .ueof) := by
+  decide
+
+/-! ### Timed delivery: pauses do not matter, restarting the reader does
+
+The transport of the model is a list of chunks; it has no clock, so by
+`C14Ntske_readData_segmentation` a response decodes to the same data however long the peer
+stays silent between two segments. That describes the code only as long as the client waits
+without a deadline (pinned below). A wrapper that bounds the wait and *calls `ReadData`
+again* after a timeout is a different reader (`readRestart`): harmless when the silence falls
+between two records, wrong anywhere else. -/
+
+/-- The client code of net/ntske sets no read deadline / timeout while it waits for the key
+    exchange response (list regenerated from the source by harness/extract/x_c14.go): the
+    clock-free transport of the model is the transport the code sees. -/
+theorem C14Ntske_pin_no_read_deadline : Gen.Ntske.clientReadDeadlinesNs = [] := by decide
+
+/-- A reader that is cut off exactly between two records (everything delivered so far is a
+    sequence of well-formed records the reader accepts) and started again on the rest decodes
+    what the uninterrupted reader decodes. -/
+theorem C14Ntske_restart_at_record_boundary (items : List Item)
+    (h : ∀ it ∈ items, it.wf ∧ it.accepted) (post : List Byte) (d : Data) :
+    readRestart (items.flatMap Item.enc) post d = readFlat (items.flatMap Item.enc ++ post) d := by
+  have h1 : readFlat (items.flatMap Item.enc) d = (items.foldl Item.apply d, some .eof) := by
+    rw [readFlat_eq_iff]
+    have := (runs_items items [] (items.foldl Item.apply d, some .eof) d h).2
+      (.done (by simp [step, flatFull, Res.andThen]))
+    simpa using this
+  have h2 : readFlat (items.flatMap Item.enc ++ post) d = readFlat post (items.foldl Item.apply d) := by
+    rw [readFlat_eq_iff, runs_items items post _ d h]
+    exact runs_readFlat _ _
+  simp [readRestart, h1, h2]
+
+/-- non-vacuity: an algorithm record and a cookie record delivered, then silence, then a
+    second cookie and the end of the message -/
+example : readRestart [128, 4, 0, 2, 0, 15, 0, 5, 0, 1, 7] [0, 5, 0, 1, 8, 128, 0, 0, 0] {} =
+    ({ algo := 15, cookies := [[7], [8]] }, none) := by decide
+
+/-- Restarting in mid-record is NOT equivalent, and not detectably so: the server packs
+    algorithm 15 and the cookies `07`, `0909 80000000`, `08` (cookies are opaque; any bytes are
+    legitimate). Cut off two bytes into the body of the second cookie and restarted, the reader
+    takes the rest of that body, `80 00 00 00`, for an end-of-message record and returns
+    *without error* with one cookie instead of three. -/
+theorem C14Ntske_restart_in_record_differs :
+    let pre : List Byte := [128, 4, 0, 2, 0, 15, 0, 5, 0, 1, 7, 0, 5, 0, 6, 9, 9]
+    let post : List Byte := [128, 0, 0, 0, 0, 5, 0, 1, 8, 128, 0, 0, 0]
+    pre ++ post = packMsg [.algorithm [15], .cookie [7], .cookie [9, 9, 128, 0, 0, 0], .cookie [8], .end_] ∧
+    readFlat (pre ++ post) {} = ({ algo := 15, cookies := [[7], [9, 9, 128, 0, 0, 0], [8]] }, none) ∧
+    readRestart pre post {} = ({ algo := 15, cookies := [[7]] }, none) := by
+  decide
+
+/-- The same inside a header: cut off after the first two bytes of a port record
+    (`80 07 | 00 02 01 bb`), the restarted reader sees `00 02 01 bb` — an error record header —
+    and reports an error the server never sent. -/
+theorem C14Ntske_restart_in_header_differs :
+    let pre : List Byte := [128, 4, 0, 2, 0, 15, 0, 5, 0, 1, 7, 128, 7]
+    let post : List Byte := [0, 2, 1, 187, 128, 0, 0, 0]
+    readFlat (pre ++ post) {} = ({ algo := 15, port := 443, cookies := [[7]] }, none) ∧
+    (readRestart pre post {}).2 ≠ none := by
   decide
 
 /-! ### Round trip -/
